@@ -40,6 +40,7 @@ TRoundTrip ==
   /\ Clause("RoundTripRuns", T.rt.first_run = 1 /\ T.rt.recreate = 1 /\ T.rt.second_run = 1)
   /\ Clause("GeqdskByteExact", T.rt.geqdsk_bytes_equal = 1)
   /\ Clause("YamlLoadable", T.rt.yaml_safe_loads = 1)
+  /\ Clause("YamlIsCompleteOptionSet", T.rt.yaml_complete = 1)
   /\ Clause("RegeneratedIdentical", T.rt.arrays_identical = 1 \/ T.rt.max_abs_diff_q <= T.rt.tolq)
 
 TBNext == TBuildEq \/ TBuildMesh \/ TGeometry \/ TWrite \/ TRepeat \/ TRoundTrip
